@@ -153,6 +153,7 @@ Proof.
   unfold load_layer. rewrite val_bind. rewrite ?val_exists.
   destruct (negb _); [discriminate|]. rewrite val_bind. rewrite ?val_read.
   destruct (read m _) as [[]|]; try discriminate.
+  destruct (validate_glifs [] gs); [discriminate|].
   rewrite val_bind. destruct (val (mapM _ gs) m) as [|glyphs]; [discriminate|].
   rewrite val_bind. rewrite ?val_exists. rewrite val_bind.
   match goal with |- context [val (if ?b then _ else _) m] => destruct (val (if b then _ else _) m) as [|info] end;
@@ -228,16 +229,37 @@ Proof. done. Qed.
 Lemma filter_true {A} (l : list A) : filter (λ _, true = true) l = l.
 Proof. induction l as [|a l IH]; [done|]. rewrite filter_cons_True by done. by rewrite IH. Qed.
 
+Lemma plain_name_Some (pr : rel) d : plain_name pr = Some d → pr = [Normal d].
+Proof. destruct pr as [|[s| | |] [|? ?]]; try discriminate. by intros [= <-]. Qed.
+Lemma validate_layers_plain sn sd ls :
+  validate_layers sn sd ls = None → Forall (λ nr, ∃ d, nr.2 = [Normal d]) ls.
+Proof.
+  revert sn sd. induction ls as [|nr ls IH]; intros sn sd; [constructor|]. cbn [validate_layers].
+  destruct (plain_name nr.2) as [d|] eqn:E; [|discriminate].
+  destruct (bool_decide (nr.1 ∈ sn)); [discriminate|].
+  destruct (bool_decide (d ∈ sd)); [discriminate|].
+  destruct (_ && _); [discriminate|]. intros H. constructor; [|by eapply IH].
+  exists d. by apply plain_name_Some.
+Qed.
+Lemma validate_glifs_plain seen gs :
+  validate_glifs seen gs = None → Forall (λ g, ∃ fn, g.2 = [Normal fn]) gs.
+Proof.
+  revert seen. induction gs as [|g gs IH]; intros seen; [constructor|]. cbn [validate_glifs].
+  destruct (plain_name g.2) as [fn|] eqn:E; [|discriminate].
+  destruct (bool_decide (fn ∈ seen)); [discriminate|]. intros H. constructor; [|by eapply IH].
+  exists fn. by apply plain_name_Some.
+Qed.
+
 Lemma val_load_layers_sim fl t m Fl :
-  default_plain m t →
   val (load_layers (r_filter req_all) t) m = inr Fl →
   val (load_layers fl t) m = inr (restrict_layers fl Fl).
 Proof.
-  intros Hplain. unfold load_layers. rewrite ?val_bind. rewrite ?val_exists.
+  unfold load_layers. rewrite ?val_bind. rewrite ?val_exists.
   destruct (negb _); [discriminate|]. rewrite ?val_bind. rewrite ?val_exists.
   rewrite ?val_bind. rewrite ?val_read.
-  unfold default_plain, layer_entries_of in Hplain.
   destruct (read m (t ++ [LAYER_CONTENTS_FILE])) as [[]|]; try discriminate.
+  destruct (validate_layers [] [] ls) eqn:Ev; [discriminate|].
+  pose proof (validate_layers_plain _ _ _ Ev) as Hplain.
   rewrite ?val_bind.
   assert (Hf : filter (λ nr : string * rel, should_load (r_filter req_all) nr.1 nr.2) ls = ls).
   { clear. induction ls as [|a l IH]; [done|]. rewrite filter_cons_True by done. by rewrite IH. }
@@ -246,11 +268,11 @@ Proof.
   set (Q := λ l : llayer, should_load fl (ll_name l) (ll_rel l)).
   rewrite (val_mapM_filter (load_layer t) (λ nr, should_load fl nr.1 nr.2) Q ls m layers); [|
     intros a b Hab; apply val_load_layer_fields in Hab as (Hn & Hr & _); unfold Q; by rewrite Hn, Hr | done].
-  assert (Hpl : Forall (λ l, is_default l = true → ll_rel l = [Normal (ll_dir l)]) layers).
+  assert (Hpl : Forall (λ l, ll_rel l = [Normal (ll_dir l)]) layers).
   { eapply (val_mapM_Forall (load_layer t)); [|exact Eall].
-    intros a b Hin Hab Hd. apply val_load_layer_fields in Hab as (_ & Hr & Hfn).
-    unfold is_default in Hd. apply bool_decide_eq_true in Hd.
-    rewrite Forall_forall in Hplain. rewrite Hd in Hfn. rewrite Hr, Hd. by apply (Hplain a Hin). }
+    intros a b Hin Hab. apply val_load_layer_fields in Hab as (_ & Hr & Hfn).
+    rewrite Forall_forall in Hplain. destruct (Hplain a Hin) as [dn Hdn].
+    rewrite Hdn in Hfn. cbn in Hfn. injection Hfn as <-. by rewrite Hr. }
   unfold with_placeholder at 1. cbn [includes_default req_all r_filter fl_all orb negb andb].
   destruct (default_first layers) as [Fl'|] eqn:Edf; [|discriminate]. cbn. intros [= <-].
   unfold default_first in Edf. destruct (split_default layers) as [[d rest]|] eqn:Es; [|discriminate].
@@ -260,7 +282,6 @@ Proof.
     intros HQ. destruct (includes_default fl) eqn:Einc; [|done]. exfalso.
     destruct (split_default_spec _ _ _ Es) as (A & B & -> & _ & Hd & _).
     apply Forall_app in Hpl as [_ Hpl]. inversion Hpl as [|? ? Hrel _]; subst.
-    specialize (Hrel Hd).
     unfold Q, should_load in HQ. rewrite Hrel in HQ. unfold is_default in Hd.
     apply bool_decide_eq_true in Hd. rewrite Hd in HQ.
     unfold includes_default in Einc. rewrite bool_decide_eq_true_2 in HQ by done.
@@ -324,7 +345,8 @@ Proof.
       * cbn [snd fst]. destruct (lf_lib F) as [lt [|ot|]]; cbn [snd fst] in *; try discriminate;
           injection Hv as <-; eexists; (split; [reflexivity|]); repeat split; cbn; try done;
           by rewrite ?Elib.
-    + injection Hv as <-. exists P. by repeat split.
+    + injection Hv as <-. eexists. split; [reflexivity|]. rewrite H2.
+      repeat split; cbn; try done. by destruct (r_lib r).
   - (* LdGroups *)
     rewrite val_bind in *.
     destruct (val (guarded (r_groups req_all) _ _ parse_groups) m) as [|v] eqn:E; [discriminate|].
@@ -369,21 +391,20 @@ Proof.
 Qed.
 
 Lemma layer_step_sim r t m F F' P :
-  default_plain m t →
   val (ld_sem req_all t LdLayers F) m = inr F' → sim (λ a b, a = [] ∧ b = []) r F P →
   ∃ P', val (ld_sem r t LdLayers P) m = inr P' ∧ sim (λ a b, b = restrict_layers (r_filter r) a) r F' P'.
 Proof.
-  intros Hpl Hv (H1 & H2 & H3 & H4 & H5 & H6 & H7 & H8 & H9). cbn [ld_sem] in *.
+  intros Hv (H1 & H2 & H3 & H4 & H5 & H6 & H7 & H8 & H9). cbn [ld_sem] in *.
   rewrite val_bind in *.
   destruct (val (load_layers (r_filter req_all) t) m) as [|Fl] eqn:E; [discriminate|].
-  injection Hv as <-. rewrite (val_load_layers_sim (r_filter r) t m Fl Hpl E).
+  injection Hv as <-. rewrite (val_load_layers_sim (r_filter r) t m Fl E).
   eexists. split; [reflexivity|]. by repeat split.
 Qed.
 
 Lemma load_restrict r t m f :
-  default_plain m t → val (load req_all t) m = inr f → val (load r t) m = inr (restrict r f).
+  val (load req_all t) m = inr f → val (load r t) m = inr (restrict r f).
 Proof.
-  intros Hpl. unfold load, load_steps.
+  unfold load, load_steps.
   change [LdAccess; LdMeta; LdLib; LdInfo; LdGroups; LdKerning; LdFeatures; LdLayers; LdData; LdImages;
           LdUpconvert; LdRobofab]
     with ([LdAccess; LdMeta; LdLib; LdInfo; LdGroups; LdKerning; LdFeatures] ++ [LdLayers] ++
@@ -402,7 +423,7 @@ Proof.
   { repeat split; cbn; by repeat match goal with |- context [if ?b then _ else _] => destruct b end. }
   rewrite !Happ, !Hone.
   destruct (val (ld_sem req_all t LdLayers F1) m) as [|F2] eqn:E2; [discriminate|].
-  destruct (layer_step_sim r t m F1 F2 P1 Hpl E2 S1) as (P2 & -> & S2).
+  destruct (layer_step_sim r t m F1 F2 P1 E2 S1) as (P2 & -> & S2).
   intros E3.
   destruct (run_sim _ r t m [LdData; LdImages; LdUpconvert; LdRobofab] F2 f P2 eq_refl E3 S2) as (P3 & -> & S3).
   f_equal. by apply sim_restrict.
@@ -471,7 +492,8 @@ Lemma load_default_present r t m f :
 Proof.
   intros H%load_layers_of. unfold load_layers in H. rewrite val_bind, val_exists in H.
   destruct (negb _); [discriminate|]. rewrite val_bind, val_exists, val_bind, val_read in H.
-  destruct (read m _) as [[]|]; try discriminate. rewrite val_bind in H.
+  destruct (read m _) as [[]|]; try discriminate.
+  destruct (validate_layers [] [] ls); [discriminate|]. rewrite val_bind in H.
   destruct (val (mapM _ _) m) as [|layers]; [discriminate|].
   destruct (default_first _) as [res|] eqn:E; [|discriminate]. injection H as <-.
   apply default_first_head in E as (d & rest & -> & Hd). exists d, rest. split; [done|].
@@ -489,7 +511,8 @@ Proof.
   intros H%load_layers_of Hno. unfold load_layers in H. rewrite val_bind, val_exists in H.
   destruct (negb _); [discriminate|]. rewrite val_bind, val_exists, val_bind, val_read in H.
   unfold layer_entries_of in Hno.
-  destruct (read m _) as [[]|]; try discriminate. rewrite val_bind in H.
+  destruct (read m _) as [[]|]; try discriminate.
+  destruct (validate_layers [] [] ls); [discriminate|]. rewrite val_bind in H.
   destruct (val (mapM _ _) m) as [|layers] eqn:El; [discriminate|].
   assert (Hnd : existsb is_default layers = false).
   { assert (Hall : Forall (λ l, is_default l = false) layers).
@@ -655,6 +678,7 @@ Proof.
   assert (Hgs : glif_entries_of m (t ++ [dn]) = gs).
   { unfold glif_entries_of. by rewrite app_cons_assoc, Er. }
   rewrite Hgs in Hgl.
+  destruct (validate_glifs [] gs); [apply logs_fail|].
   apply logs_bind.
   { apply logs_mapM. intros g Hg. rewrite Forall_forall in Hgl. destruct (Hgl g Hg) as [gn Hgn].
     rewrite Hgn. cbn [lex]. rewrite app_cons_assoc.
@@ -682,6 +706,7 @@ Proof.
   rewrite val_read in Hc. injection Hc as <-.
   destruct (read m (t ++ [LAYER_CONTENTS_FILE])) as [[]|] eqn:Er; try apply logs_fail.
   assert (Hls : layer_entries_of m t = ls) by (unfold layer_entries_of; by rewrite Er).
+  destruct (validate_layers [] [] ls); [apply logs_fail|].
   apply logs_bind.
   { apply logs_mapM. intros nr [Hsel Hin]%elem_of_list_filter. apply logs_load_layer; [done| |].
     - by rewrite Hls.
@@ -771,20 +796,50 @@ Proof.
   - intros p Hp. symmetry. apply Hsame. intros Hu. by apply (Hall p Hu).
 Qed.
 
-Lemma default_plainb_spec m t : default_plainb m t = true ↔ default_plain m t.
+(** * What load hands to save: plain layer directories and glif file names (F8 repaired) *)
+Lemma val_load_layer_files t nr m l :
+  val (load_layer t nr) m = inr l → Forall single_normal (ll_files l).
 Proof.
-  unfold default_plainb, default_plain. rewrite forallb_forall, Forall_forall. split; intros H nr Hin.
-  - intros Hfn. specialize (H nr (proj1 (elem_of_list_In _ _) Hin)).
-    apply orb_true_iff in H as [H|H].
-    + apply negb_true_iff, bool_decide_eq_false in H. done.
-    + by apply bool_decide_eq_true in H.
-  - apply elem_of_list_In in Hin. specialize (H nr Hin).
-    destruct (decide (file_name_of t nr.2 = Some DEFAULT_GLYPHS_DIRNAME)) as [E|E].
-    + apply orb_true_iff. right. apply bool_decide_eq_true. by apply H.
-    + apply orb_true_iff. left. apply negb_true_iff, bool_decide_eq_false. done.
+  unfold load_layer. rewrite val_bind. rewrite ?val_exists.
+  destruct (negb _); [discriminate|]. rewrite val_bind. rewrite ?val_read.
+  destruct (read m _) as [[]|]; try discriminate.
+  destruct (validate_glifs [] gs) eqn:Ev; [discriminate|].
+  rewrite val_bind. destruct (val (mapM _ gs) m) as [|glyphs]; [discriminate|].
+  rewrite val_bind. rewrite ?val_exists. rewrite val_bind.
+  match goal with |- context [val (if ?b then _ else _) m] => destruct (val (if b then _ else _) m) as [|info] end;
+    [discriminate|].
+  destruct (file_name_of t nr.2) as [dn|]; [|discriminate]. cbn. intros [= <-]. cbn.
+  apply Forall_fmap. eapply Forall_impl; [apply (validate_glifs_plain _ _ Ev)|].
+  intros g [fn Hfn]. by exists fn.
 Qed.
-Lemma F23_decidable m t : default_plain m t ∨ KnownClass_F23 m t.
+Lemma default_first_Forall (Q : llayer → Prop) ls res :
+  default_first ls = Some res → Forall Q ls → Forall Q res.
 Proof.
-  destruct (default_plainb m t) eqn:E; [left; by apply default_plainb_spec|].
-  right. intros H%default_plainb_spec. congruence.
+  unfold default_first. destruct (split_default ls) as [[d rest]|] eqn:E; [|discriminate].
+  intros [= <-]. apply split_default_spec in E as (A & B & -> & -> & _ & _).
+  rewrite !Forall_app, !Forall_cons, Forall_app. tauto.
+Qed.
+Lemma load_safe r t m f : val (load r t) m = inr f → loaded_safe f.
+Proof.
+  intros H%load_layers_of. unfold loaded_safe. unfold load_layers in H. rewrite val_bind, val_exists in H.
+  destruct (negb _); [discriminate|]. rewrite val_bind, val_exists, val_bind, val_read in H.
+  destruct (read m _) as [[]|]; try discriminate.
+  destruct (validate_layers [] [] ls); [discriminate|]. rewrite val_bind in H.
+  destruct (val (mapM _ _) m) as [|layers] eqn:El; [discriminate|].
+  destruct (default_first _) as [res|] eqn:E; [|discriminate]. injection H as <-.
+  eapply default_first_Forall; [exact E|]. unfold with_placeholder.
+  assert (Hl : Forall (λ l, Forall single_normal (ll_files l)) layers).
+  { eapply (val_mapM_Forall (load_layer t)); [|exact El]. intros a b _ Hab.
+    by apply val_load_layer_files in Hab. }
+  destruct (_ && _); [|done]. apply Forall_app. split; [done|].
+  constructor; [cbn; constructor|constructor].
+Qed.
+Lemma abstracts_safe fa f : abstracts fa f → loaded_safe f → layers_safe fa.
+Proof.
+  unfold abstracts, loaded_safe, layers_safe. intros Heq Hs.
+  set (Q := λ x : rel * list rel, single_normal x.1 ∧ Forall single_normal x.2).
+  assert (H : Forall Q (map (λ l, ([Normal (ll_dir l)], ll_files l)) (lf_layers f))).
+  { apply Forall_fmap. eapply Forall_impl; [exact Hs|]. intros l Hl. split; [by eexists|exact Hl]. }
+  rewrite <- Heq in H. apply Forall_fmap in H. eapply Forall_impl; [exact H|].
+  intros l [H1 H2]. cbn [fst snd] in H1, H2. split; [exact H1|]. exact (proj1 (Forall_fmap _ _ _) H2).
 Qed.
